@@ -80,4 +80,81 @@ example : (⟨true, ['1', '2'], true, ['5', '0'], some (some '-', ['3'])⟩ : De
         = ['-', '1', '2', '.', '5', '0', 'e', '-', '3'] := by
   refine ⟨⟨?_, ?_, ?_, ?_, ?_⟩, rfl⟩ <;> simp [AllDigits, isDigit]
 
+/-! ## integers -/
+
+/-- `isDecimalInteger` accepts exactly  `-`? digits+ (`sci` `+`? digits+)?  -/
+theorem integer_accepts_iff_grammar {sci : Char} (hs : isDigit sci = false) (s : Str) :
+    isDecimalInteger sci s = true ↔ DecInteger sci s := by
+  rw [isDecimalInteger_eq_parse hs]
+  constructor
+  · intro h
+    cases hp : parseInteger sci s with
+    | none => rw [hp] at h; cases h
+    | some p => exact ⟨p, parseInteger_sound hs hp⟩
+  · rintro ⟨p, hwf, rfl⟩
+    rw [parseInteger_complete hs p hwf]; rfl
+
+theorem toInt_raises {sci : Char} (hs : isDigit sci = false) (s : Str) (h : ¬ DecInteger sci s) :
+    toInt sci s = none := by
+  have : isDecimalInteger sci s = false := by
+    cases hh : isDecimalInteger sci s
+    · rfl
+    · exact absurd ((integer_accepts_iff_grammar hs s).mp hh) h
+  simp [toInt, this]
+
+/-- what `toInt` returns on a grammatical integer: the mantissa, clamped to the `int` range
+(`istringstream >> int` stops at the exponent mark) -/
+theorem toInt_reads_mantissa {sci : Char} (hs : isDigit sci = false) (p : IntParts) (hwf : p.WF) :
+    toInt sci (p.render sci)
+      = some (clampInt (if p.neg then - (digitsVal p.ip : Int) else (digitsVal p.ip : Int))) := by
+  have hp := parseInteger_complete hs p hwf
+  have hacc : isDecimalInteger sci (p.render sci) = true := by
+    rw [isDecimalInteger_eq_parse hs, hp]; rfl
+  simp [toInt, hacc, streamInt_of_parse hs hp]
+
+/-- FULL statement `toInt_value : toInt sci (p.render sci) = some (clampInt p.value)` is FALSE of the
+code (witness below: the exponent is ignored; recorded as finding C17-toint-ignores-exponent).
+Proved under the guard "no exponent part". -/
+theorem toInt_value_partial {sci : Char} (hs : isDigit sci = false) (p : IntParts) (hwf : p.WF)
+    (hex : p.ex = none) : toInt sci (p.render sci) = some (clampInt p.value) := by
+  rw [toInt_reads_mantissa hs p hwf]
+  simp [IntParts.value, hex]
+
+/-- witness: "1e2" is accepted, the grammar's value is 100, `toInt` returns 1 -/
+theorem toInt_exponent_witness :
+    (⟨false, ['1'], some (false, ['2'])⟩ : IntParts).WF ∧
+    (⟨false, ['1'], some (false, ['2'])⟩ : IntParts).render 'e' = ['1', 'e', '2'] ∧
+    (⟨false, ['1'], some (false, ['2'])⟩ : IntParts).value = 100 ∧
+    toInt 'e' ['1', 'e', '2'] = some 1 := by
+  have hwf : (⟨false, ['1'], some (false, ['2'])⟩ : IntParts).WF := by
+    refine ⟨?_, ?_, ?_, ?_⟩ <;> simp [AllDigits, isDigit]
+  refine ⟨hwf, rfl, by decide, ?_⟩
+  have := toInt_reads_mantissa (sci := 'e') (by decide) _ hwf
+  simpa [IntParts.render, digitsVal, digitVal, clampInt, intMin, intMax] using this
+
+/-- `toInt (toString n) = n` for every `int` -/
+theorem int_roundtrip {sci : Char} (hs : isDigit sci = false) (n : Int) (hlo : intMin ≤ n) (hhi : n ≤ intMax) :
+    toInt sci (intToString n) = some n := by
+  obtain ⟨h1, h2, h3⟩ := natDigits_spec n.natAbs
+  let p : IntParts := ⟨decide (n < 0), natDigits n.natAbs, none⟩
+  have hwf : p.WF := ⟨h1, h2, trivial⟩
+  have hr : intToString n = p.render sci := by
+    unfold intToString IntParts.render
+    by_cases hn : n < 0 <;> simp [p, hn]
+  rw [hr, toInt_reads_mantissa hs p hwf]
+  simp only [p, h3]
+  congr 1
+  unfold clampInt
+  by_cases hn : n < 0
+  · simp only [hn, decide_true, if_true]
+    have : -(n.natAbs : Int) = n := by omega
+    rw [this]; simp only [intMin, intMax] at *; omega
+  · simp only [hn, decide_false]
+    have : (n.natAbs : Int) = n := by omega
+    simp only [Bool.false_eq_true, if_false, this]; simp only [intMin, intMax] at *; omega
+
+/-- non-vacuity of `int_roundtrip` at the limits -/
+example : toInt 'e' (intToString intMin) = some intMin ∧ toInt 'e' (intToString intMax) = some intMax :=
+  ⟨int_roundtrip (by decide) _ (by decide) (by decide), int_roundtrip (by decide) _ (by decide) (by decide)⟩
+
 end Bpp.C17
